@@ -18,7 +18,9 @@ import extract_c08
 # hand-written expectation (what the Lean model's StepKind of each integrator is); the translator must agree
 KIND = {"none": "once", "leapfrog": "halves", "whfast": "halves", "saba": "once", "janus": "janus", "eos": "once",
         "mercurius": "once", "sei": "halves", "trace": "once", "ias15": "adaptive", "bs": "adaptive"}
+REAL = list(KIND)
 FIXED = [k for k, v in KIND.items() if v != "adaptive"]
+KIND["emulated"] = "adaptive"     # integrator NONE + a heartbeat that rewrites (t, dt_last_done, dt) like an adaptive integrator would
 ADAPTIVE = ["ias15", "bs"]
 # hand-written expectation of the Python layer (independent of the extracted table)
 PY_EXC = {0: None, 1: "GenericError", 2: "NoParticles", 3: "Encounter", 4: "Escape", 5: None, 6: "KeyboardInterrupt",
@@ -55,8 +57,10 @@ class Harness:
             if rng.chance(0.4):
                 sim.add(m=rng.loguniform(1e-6, 1e-3), a=rng.uniform(2.5, 4.0), e=rng.uniform(0, 0.1), f=rng.uniform(0, 6.28))
             sim.move_to_com()
-        elif physics == "free":       # non-interacting particles on straight lines (exit conditions are exactly predictable)
+        elif physics == "free":       # non-interacting particles on straight lines
             sim.gravity = "none"
+        elif physics == "central":    # caller adds a massive anchor first
+            pass
         if integ == "bs":
             sim.ri_bs.eps_rel = 1e-6
             sim.ri_bs.eps_abs = 1e-6
@@ -64,19 +68,34 @@ class Harness:
         sim.dt = dt
         return sim
 
-    def call(self, sim, tmax, exact, events=None, conds=None, cap=CAP):
+    def call(self, sim, tmax, exact, events=None, conds=None, cap=CAP, script=None):
         """one reb_simulation_integrate; returns dict(pre, beats, post, ret, flags).
         events: {boundary index: set of 'user'|'err'|'sigint'|'empty'};  conds: callable(sim)->mask of F_ESC|F_ENC|F_COLL
-        recomputed from the particle arrays at every heartbeat."""
+        recomputed from the particle arrays at every heartbeat.
+        script (integrator NONE only): callable(k, dt_in, status) -> (accepted, fraction, dt_new); the heartbeat rewrites t, dt_last_done and dt
+        after every step so that the real loop sees an adaptive integrator with exactly these decisions (emulated adaptive integrator)."""
         events = events or {}
         pre = (sim.t, sim.dt, sim.dt_last_done, sim._status, sim.steps_done)
-        beats, flags = [], []
+        beats, flags, dtins = [], [], []
         clib, sigint = self.clib, self.sigint
         state = {"capped": False}
 
         def hb(sp):
             s = sp.contents
             k = len(beats)
+            if script is not None and k > 0 and s._status < 0:
+                tp, dldp = beats[-1][0], beats[-1][2]
+                dt_in = s.dt                    # NONE leaves dt alone and has just done t += dt, dt_last_done = dt
+                dtins.append(dt_in)
+                acc, frac, dt_new = script(k - 1, dt_in, s._status)
+                if acc:
+                    done = dt_in if frac >= 1.0 else dt_in * frac
+                    s.t = tp + done
+                    s.dt_last_done = done
+                else:
+                    s.t = tp
+                    s.dt_last_done = dldp
+                s.dt = dt_new
             beats.append((s.t, s.dt, s.dt_last_done, s.steps_done, s._status))
             mask = 0
             if conds is not None:
@@ -111,7 +130,7 @@ class Harness:
         except RuntimeError:
             pass
         return dict(pre=pre, beats=beats, post=post, ret=ret, flags=flags, capped=state["capped"], tmax=tmax, exact=exact,
-                    n_odes=sim._N_odes)
+                    n_odes=sim._N_odes, dt_in=(dtins if script is not None else None))
 
 
 def model_line(kind, rec, is_bs=False, n_odes=0, fuel=None):
@@ -160,6 +179,33 @@ def parse_answer(line):
         dt0s.append(b[0])
         out += b[1:]
     return out, int(tk[6]), dt0s
+
+
+def tolerant_equal(a, e, rec):
+    """policy for a non-bitwise property: model and implementation may differ in HOW the last step is taken (e.g. which of two equal
+    comparisons fires) as long as every heartbeat sees the same times and step sizes to a few ulp, the same kind of status (still
+    running vs. the same exit code), and the call ends in the same state.  A wrong bound / constant / sign / missing restore does not pass."""
+    if len(a) != len(e) or a[0] != e[0] or a[4] != e[4] or a[6] != e[6]:      # outcome, steps_done, number of heartbeats
+        return False
+    T = max(abs(rec["tmax"]) if rec["tmax"] != math.inf else 0.0, abs(rec["pre"][0]), 1e-300)
+
+    def close(x, y, scale):
+        if x == y:
+            return True
+        try:
+            u, v = h2d(x), h2d(y)
+        except ValueError:
+            return False
+        return u == v or abs(u - v) <= 8 * math.ulp(scale) + 1e-9 * min(abs(u), abs(v)) * 0
+    def st_same(x, y):
+        x, y = int(x), int(y)
+        return (x < 0 and y < 0) or x == y
+    if not (close(a[1], e[1], T) and close(a[2], e[2], T) and close(a[3], e[3], T) and st_same(a[5], e[5])):
+        return False
+    for i in range(7, len(a), 4):
+        if not (close(a[i], e[i], T) and close(a[i + 1], e[i + 1], T) and close(a[i + 2], e[i + 2], T) and st_same(a[i + 3], e[i + 3])):
+            return False
+    return True
 
 
 # ----------------------------------------------------------------------------- generators
@@ -244,9 +290,10 @@ def check_contract(c, integ, rec, t0dt, fails, worst):
             fails.append(("time-backwards", "time moved against the direction of integration", dict(info, t_a=a, t_b=b)))
             break
     if exact == 1:
-        tol = 1e-12 * abs(tmax) if tmax != 0 else 1e-12
+        # 1e-12 relative; absolute 1e-12 for a target at (or, as in the code's failsafe, indistinguishable from) zero
+        tol = 1e-12 * abs(tmax) if 1e-12 * abs(tmax) >= 1e-200 else 1e-12
         err = abs(t1 - tmax)
-        worst["exact_finish_rel_err"] = max(worst.get("exact_finish_rel_err", 0.0), err / (abs(tmax) if tmax != 0 else 1.0))
+        worst["exact_finish_rel_err"] = max(worst.get("exact_finish_rel_err", 0.0), err / (abs(tmax) if abs(tmax) >= 1e-188 else 1.0))
         if not err <= tol:
             fails.append(("exact-finish", "exact_finish_time=1 did not end within 1e-12 of tmax", info))
     else:
@@ -261,12 +308,17 @@ def check_contract(c, integ, rec, t0dt, fails, worst):
     if fixed:
         if d2h(abs(dt1)) != d2h(abs(t0dt)):
             fails.append(("dt-restore", "fixed-step integrator: |dt| after integrate differs from the user's", info))
-    else:
-        # adaptive: dt must be a full step of the integrator, not the shrunk last step
-        if exact == 1 and len(beats) > 2:
-            full = [abs(b[2]) for b in beats[1:-1] if b[2] != 0]
-            if full and not abs(dt1) >= 0.2 * min(full[-3:]):
-                fails.append(("dt-restore-adaptive", "adaptive integrator: dt left shrunk after exact finish", dict(info, recent_full=full[-3:])))
+    elif exact == 1:
+        # adaptive: dt must be the last full step, i.e. dt_last_done at the boundary where LAST_STEP was entered for the last time
+        # (or the start dt if no step had been done): re-derived from what the heartbeats saw
+        last_full = math.copysign(abs(dt_pre), sg)
+        for j in range(len(beats) - 1):
+            was_running = (j == 0) or beats[j][4] == -1
+            if was_running and beats[j + 1][4] == -2 and beats[j][2] != 0.0:
+                last_full = beats[j][2]
+        if d2h(dt1) != d2h(last_full):
+            fails.append(("dt-restore-adaptive", "adaptive integrator: dt after exact finish is not the last full step",
+                          dict(info, expected=last_full)))
     # number of steps of a fixed-step integrator
     if fixed:
         n = steps1 - steps0
@@ -313,15 +365,23 @@ def cond_fn(maxd, mind, radii):
     return f
 
 
+KEPLER_BASED = ("whfast", "saba", "mercurius", "trace")
+
+
 def make_scene(H, rng, integ):
-    """non-gravitating particles on straight lines; returns (sim, conds, description).  Events happen after a few steps."""
+    """a few particles that cross exit_max_distance / exit_min_distance / touch after some steps.  Straight lines without gravity, or
+    (Kepler-splitting integrators, which need a central mass) fast fly-bys of a unit-mass anchor.  Returns (sim, conds, description)."""
     dt = rng.choice([0.1, 0.25, 0.05, rng.uniform(0.02, 0.5)])
-    sim = H.make_sim(integ, 0.0, dt, rng, physics="free")
+    massive = integ in KEPLER_BASED
+    sim = H.make_sim(integ, 0.0, dt, rng, physics=("central" if massive else "free"))
     kind = rng.choice(["escape", "encounter", "collision", "escape+encounter", "collision+escape", "collision+encounter", "none"])
+    if integ in ("mercurius", "trace"):
+        # these search for collisions inside their close-encounter sub-integration, not at the step boundary: not recomputable here
+        kind = kind.replace("collision+", "").replace("collision", "none")
     maxd = mind = 0.0
     radii = False
-    v = rng.uniform(0.5, 2.0)
-    sim.add(m=0.0, x=0.0, y=0.0, z=0.0)                      # anchor at the origin
+    v = rng.uniform(2.5, 4.0) if massive else rng.uniform(0.5, 2.0)
+    sim.add(m=(1.0 if massive else 0.0), x=0.0, y=0.0, z=0.0)                      # anchor at the origin
     if "escape" in kind:
         maxd = rng.uniform(1.0, 3.0)
         sim.add(m=0.0, x=rng.uniform(0, 0.5), y=0.3, vx=v)     # leaves the sphere
@@ -333,9 +393,9 @@ def make_scene(H, rng, integ):
         sim.collision = "direct"
         sim.collision_resolve = "halt"
         sim.particles[0].r = rng.uniform(0.05, 0.2)
-        sim.add(m=0.0, x=0.0, y=-rng.uniform(1.0, 2.0), vy=v, r=rng.uniform(0.05, 0.2))
+        sim.add(m=0.0, x=0.02, y=-rng.uniform(1.0, 2.0), vy=v, r=rng.uniform(0.05, 0.2))
     if kind == "none":
-        sim.add(m=0.0, x=1.0, vx=0.1)
+        sim.add(m=0.0, x=1.0, vy=(1.0 if massive else 0.1))
     sim.exit_max_distance = maxd
     sim.exit_min_distance = mind
     return sim, cond_fn(maxd, mind, radii), kind
@@ -466,11 +526,13 @@ def run(c):
         hist_steps[b] = hist_steps.get(b, 0) + 1
 
     # ------------------------------------------------------------------ A: time logic, all integrators
-    nA = 60 if thorough else 9
-    for integ in KIND:
+    nA = 300 if thorough else 9
+    for integ in REAL:
         for rep in range(nA):
             rng = c.rng.fork()
             t0, dt, tmax, fam = gen_triple(rng)
+            if KIND[integ] == "adaptive" and fam != "huge_t" and rng.chance(0.4):
+                dt, tmax = dt * 8, t0 + (tmax - t0) * 8       # first step too large: the integrator shrinks / rejects
             ncalls = rng.choice([1, 1, 1, 2, 3, 4, 5, 6])
             exact = rng.choice([0, 1, 1, 1, 0, 2]) if ncalls == 1 else rng.choice([0, 1])
             sim = H.make_sim(integ, t0, dt, rng)
@@ -493,7 +555,7 @@ def run(c):
                           "end": [sim.t, sim.dt, sim.dt_last_done, sim.steps_done]})
 
     # ------------------------------------------------------------------ B: events at chosen boundaries
-    nB = 40 if thorough else 8
+    nB = 150 if thorough else 8
     for integ in ["none", "leapfrog", "whfast", "ias15", "bs", "saba", "mercurius", "janus"]:
         for rep in range(nB):
             rng = c.rng.fork()
@@ -529,13 +591,11 @@ def run(c):
                 check_contract(c, integ, rec2, abs(rec2["pre"][1]), fails, worst)
 
     # ------------------------------------------------------------------ C: exit conditions from particle positions
-    nC = 60 if thorough else 10
+    nC = 200 if thorough else 10
     scene_hist = {}
-    for integ in ["leapfrog", "whfast", "ias15", "saba", "eos", "none", "sei"]:
+    for integ in ["leapfrog", "whfast", "ias15", "saba", "eos", "mercurius", "sei", "janus"]:
         for rep in range(nC):
             rng = c.rng.fork()
-            if integ == "none":
-                continue_none = True
             sim, conds, kind = make_scene(H, rng, integ)
             if integ == "ias15":
                 sim.ri_ias15.epsilon = 0          # straight lines: keep the step fixed so that crossings happen at boundaries
@@ -560,16 +620,69 @@ def run(c):
             c.count((integ, kind, exact, rec["ret"]), nontrivial=(rec["ret"] != 0 or kind == "none"))
     c.cov["scene_status_histogram"] = scene_hist
 
+    # ------------------------------------------------------------------ D: emulated adaptive integrator on the real loop
+    nD = 3000 if thorough else 60
+    emu = {"rejects": 0, "partial": 0, "last_step_short": 0, "fallback_to_running": 0, "another_step": 0}
+    for rep in range(nD):
+        rng = c.rng.fork()
+        t0, dt, tmax, fam = gen_triple(rng)
+        if rng.chance(0.3):
+            e = rng.randint(3, 12)          # large |t|: the 1e-12*|tmax| window is wide compared with the steps
+            t0 = rng.choice([1, -1]) * rng.uniform(1, 10) * 10 ** e
+            tmax = t0 + rng.choice([1, -1]) * abs(dt) * rng.uniform(0.5, 30)
+            fam = "emu_large_t"
+        if tmax == t0 or fam == "huge_t":
+            continue
+        sg = 1.0 if tmax > t0 else -1.0
+        floor = abs(dt) * rng.choice([0.05, 0.2, 0.5])
+        orc_rng = rng.fork()
+        style = rng.choice(["mild", "rejecty", "short_last", "short_last", "grow"])
+
+        def script(k, dt_in, status, orc_rng=orc_rng, style=style, tmax=tmax, floor=floor, sg=sg):
+            r = orc_rng
+            mag = abs(dt_in)
+            new = max(floor, mag * r.uniform(0.6, 1.4)) if style != "grow" else max(floor, mag * r.uniform(1.0, 3.0))
+            if status != -2:
+                new = max(new, floor)
+            if style == "rejecty" and r.chance(0.3) and mag > floor:
+                emu["rejects"] += 1
+                return False, 0.0, sg * max(floor, mag * r.uniform(0.3, 0.9))
+            if status == -2 and style == "short_last" and r.chance(0.7):
+                # stop short of tmax by a distance around the 1e-12*|tmax| threshold
+                scale = abs(tmax) if abs(tmax) > 1e-188 else 1.0
+                rem = scale * 10.0 ** (-r.uniform(9, 15))
+                if rem < mag:
+                    emu["last_step_short"] += 1
+                    return True, 1.0 - rem / mag, sg * new
+            if r.chance(0.25):
+                emu["partial"] += 1
+                return True, r.uniform(0.3, 1.0), sg * new
+            return True, 1.0, sg * new
+
+        sim = H.make_sim("none", t0, dt, rng)
+        exact = rng.choice([1, 1, 1, 1, 0, 2])
+        rec = H.call(sim, tmax, exact, script=script)
+        record("emulated", rec, "emulated:" + style)
+        sts = [b[4] for b in rec["beats"]]
+        emu["fallback_to_running"] += sum(1 for a, b in zip(sts[1:], sts[2:]) if a == -2 and b == -1)
+        emu["another_step"] += sum(1 for a, b in zip(sts[1:], sts[2:]) if a == -2 and b == -2)
+        check_contract(c, "emulated", rec, abs(dt), fails, worst)
+        c.count(("emulated", style, exact, fam))
+    c.cov["emulated_adaptive"] = emu
+
     # ------------------------------------------------------------------ model vs implementation
     c.log("running %d integrate calls through drv_c08" % len(lines))
     got = run_driver(exe, lines)
-    ndis, first = 0, None
+    ndis, nwithin, first = 0, 0, None
     adaptive_pred = {"checked": 0, "shrunk_inside_step": 0}
     if len(got) != len(lines):
         c.corr_break("driver returned %d lines for %d calls" % (len(got), len(lines)))
     else:
         for g, e, (integ, tag, rec), l in zip(got, expect, meta, lines):
             pa = parse_answer(g)
+            if pa is not None and pa[0] != e and tolerant_equal(pa[0], e, rec):
+                nwithin += 1
+                continue
             if pa is None or pa[0] != e:
                 ndis += 1
                 if first is None:
@@ -578,6 +691,14 @@ def run(c):
                     first = {"integrator": integ, "case": tag, "tmax": rec["tmax"], "exact_finish_time": rec["exact"], "pre": rec["pre"],
                              "first_difference_at_token": idx, "model": a[max(0, idx - 3): idx + 4], "impl": e[max(0, idx - 3): idx + 4],
                              "model_head": a[:7], "impl_head": e[:7], "line": l[:300]}
+                continue
+            # emulated adaptive integrator: the step size every step was called with is observable -> compare it too
+            if rec.get("dt_in") is not None and [d2h(x) for x in rec["dt_in"]] != pa[2][:len(rec["dt_in"])]:
+                ndis += 1
+                if first is None:
+                    first = {"integrator": integ, "case": tag, "tmax": rec["tmax"], "exact_finish_time": rec["exact"], "pre": rec["pre"],
+                             "what": "step size the step function was called with", "model": pa[2][:8],
+                             "impl": [d2h(x) for x in rec["dt_in"]][:8]}
                 continue
             # hypothesis of the adaptive theorem, observed: an accepted step advances by dt_done with 0 < |dt_done| <= |dt on entry|
             if KIND[integ] == "adaptive":
@@ -588,11 +709,12 @@ def run(c):
                     adaptive_pred["checked"] += 1
                     if d2h(done) != d2h(dt0):
                         adaptive_pred["shrunk_inside_step"] += 1
-                    if not (done * dt0 > 0 and abs(done) <= abs(dt0)) or (integ == "bs" and d2h(done) != d2h(dt0)):
+                    if not (done != 0 and math.copysign(1, done) == math.copysign(1, dt0) and abs(done) <= abs(dt0)) or (integ == "bs" and d2h(done) != d2h(dt0)):
                         fails.append(("adaptive-step-predicate", "an accepted adaptive step advanced by more than / against the dt it was called with",
                                       dict(integrator=integ, dt_in=dt0, dt_done=done, tmax=rec["tmax"])))
     c.cov["model_calls_compared"] = len(lines)
     c.cov["disagreements"] = ndis
+    c.cov["bitwise_mismatches_within_tolerance"] = nwithin
     c.cov["steps_per_call_histogram"] = hist_steps
     c.cov["family_histogram"] = fam_hist
     c.cov["adaptive_step_predicate"] = adaptive_pred
@@ -615,7 +737,7 @@ def search_more(c, H, scratch, fails, worst):
     thorough = c.thorough
 
     # ------------------------------------------------------------------ split integration == single call (fixed step, no exact finish)
-    nS = 40 if thorough else 8
+    nS = 150 if thorough else 8
     split_stats = {"compared": 0, "reversing_partitions": 0}
     for integ in FIXED:
         for rep in range(nS):
@@ -664,15 +786,16 @@ def search_more(c, H, scratch, fails, worst):
     for integ in ["leapfrog", "whfast", "ias15"]:
         for want, setup in ((1, "err"), (2, "empty"), (3, "encounter"), (4, "escape"), (5, "user"), (6, "sigint"), (7, "collision"), (0, "none")):
             rng = c.rng.fork()
-            sim = H.make_sim(integ, 0.0, 0.1, rng, physics="free")
-            sim.add(m=0.0, x=0.0)
-            sim.add(m=0.0, x=-1.0, vx=1.0, r=0.01)
+            massive = integ in KEPLER_BASED
+            sim = H.make_sim(integ, 0.0, 0.1, rng, physics=("central" if massive else "free"))
+            sim.add(m=(1.0 if massive else 0.0), x=0.0)
+            sim.add(m=0.0, x=-1.0, y=0.03, vx=(3.0 if massive else 1.0), r=0.01)
             if setup == "encounter":
                 sim.exit_min_distance = 0.2
             if setup == "escape":
                 sim.exit_max_distance = 0.5
             if setup == "collision":
-                sim.collision = "direct"; sim.collision_resolve = "halt"; sim.particles[0].r = 0.1
+                sim.collision = "direct"; sim.collision_resolve = "halt"; sim.particles[0].r = 0.5
             if integ == "ias15":
                 sim.ri_ias15.epsilon = 0
             nb = [0]
@@ -708,7 +831,7 @@ def search_more(c, H, scratch, fails, worst):
     # ------------------------------------------------------------------ subprocess probes
     probes = {}
     # TRACE with a negative step (F10): does the contract itself trip?
-    nT = 6 if thorough else 3
+    nT = 12 if thorough else 3
     trace_bad = []
     for i in range(nT):
         rng = c.rng.fork()
@@ -725,7 +848,7 @@ def search_more(c, H, scratch, fails, worst):
         fails.append(("F10:trace-negative-dt", "TRACE integrated backwards in time breaks the integrate() contract (crash / wrong end time)",
                       trace_bad[0]))
     # absorbed step: |t| so large that t + dt == t
-    nH = 4 if thorough else 2
+    nH = 6 if thorough else 2
     hang = []
     for i in range(nH):
         rng = c.rng.fork()
@@ -745,4 +868,11 @@ def search_more(c, H, scratch, fails, worst):
 
 
 if __name__ == "__main__":
+    # --replay <file>: the run is deterministic in (seed, tier); re-run the check with the ones recorded in the replay file
+    if "--replay" in sys.argv:
+        path = sys.argv[sys.argv.index("--replay") + 1]
+        rep = json.load(open(path if os.path.exists(path) else os.path.join(ROOT, path)))
+        print("replaying", path, "->", rep.get("key", "broken obligation"), json.dumps(rep.get("replay", rep.get("no_longer_checks")), default=str)[:600])
+        os.environ["VERIF_SEED"] = str(rep.get("seed", 1))
+        sys.argv += ["--tier", rep.get("tier", "quick")]
     main("C08", run)
